@@ -94,12 +94,25 @@ class Call:
     def where(self):
         return "%s:%d" % (self.file, self.line)
 
+    def const_arg(self, i):
+        """constant behind argument i (directly, or through moves/refs of a constant-initialised temp)"""
+        if i >= len(self.args):
+            return None
+        c = op_const(self.args[i])
+        if c is not None:
+            return c
+        o = self.fn.origin(self.args[i], depth=6)
+        while o[0] == "proj" and all(p == "deref" for p in o[2]):
+            o = o[1]
+        if o[0] == "const":
+            return o[1]
+        return None
+
     def arg_str(self, i):
         """string-literal constant argument i, else None"""
-        if i < len(self.args):
-            c = op_const(self.args[i])
-            if c and "str" in c:
-                return c["str"]
+        c = self.const_arg(i)
+        if c and "str" in c:
+            return c["str"]
         return None
 
     def __repr__(self):
@@ -421,13 +434,9 @@ class Fn:
                 return "call %s(%s)" % (name, ",".join(inner))
             args = []
             for i, a in enumerate(c.args):
-                s = c.arg_str(i)
-                if s is not None:
-                    args.append(json.dumps(s, ensure_ascii=False))
-                else:
-                    cc = op_const(a)
-                    if cc is not None and ("int" in cc or "char" in cc or "bool" in cc):
-                        args.append(self.describe_origin(("const", cc)))
+                cc = c.const_arg(i)
+                if cc is not None and ("str" in cc or "int" in cc or "char" in cc or "bool" in cc):
+                    args.append(self.describe_origin(("const", cc)))
             return "call %s(%s)" % (name, ",".join(args))
         if t == "proj":
             return self.describe_origin(o[1], short, deep) + "".join("." + simplify_proj(p) for p in o[2])
